@@ -1,5 +1,6 @@
 """CFG queries shared by the property modules: decoded switches, edge-restricted reachability,
 enum->constant tables."""
+import re
 from core import *
 from dataflow import *
 
@@ -119,6 +120,23 @@ def enum_const_table(body):
                 if not hit:
                     st += body.succ(x)
             table[variant] = vals.pop() if len(vals) == 1 else ('<mixed %s>' % sorted(map(str, vals)))
+        if any(isinstance(v, str) and v.startswith('<mixed') for v in table.values()):
+            # `if matches!(self, V(..)) { a } else { b }`: the arms meet at a temporary before the constant is chosen - evaluate the
+            # function once per variant instead (abstract walk under the assumption "*self is this variant")
+            from absint import Walker, show
+            for variant in list(table):
+                if not (isinstance(table[variant], str) and table[variant].startswith('<mixed')):
+                    continue
+                outs = set()
+                try:
+                    for p_ in Walker(body, variant_of={(1, ()): variant}, max_paths=200).run():
+                        if p_.end == 'return':
+                            outs.add(show(p_.ret))
+                except Exception:
+                    outs = set()
+                if len(outs) == 1:
+                    o = outs.pop()
+                    table[variant] = {'True': True, 'False': False}.get(o, int(o) if re.match(r'^-?\d+$', o) else o)
         return sw.enum, table
     raise Broken('%s: no switch on the discriminant of *self' % body.path)
 
